@@ -4,7 +4,8 @@ value), the *units* of a byte stream as `Parser.readRune` sees them — one unit
 scalar, one unit per byte that does not start a well-formed sequence (overlong, surrogate,
 > U+10FFFF, truncated, stray continuation, C0/C1/F5–FF lead: delivered raw) — and the two readings
 of a unit: `raw` (what `readRune` returns: the raw-byte fallback) and `look` (what `bufio.ReadRune`
-returns inside `print`'s look-ahead: U+FFFD for an invalid byte, no fallback — finding F102d).
+returns: U+FFFD for an invalid byte — `print`'s look-ahead stops there and leaves the byte to
+`readRune`; before F102d was repaired it put that U+FFFD into the Print).
 
 Everything is defined from `ParserIO.decodeRune` (the transcription of `utf8.DecodeRune`), so the
 lemmas in Lemmas/ParserUtf8.lean are statements about that transcription.  Core Lean only.
@@ -64,10 +65,9 @@ def decodeRunes (bs : List Nat) : List Rune := (units bs).map U.raw
 def ulen (us : List U) : Nat := (us.map U.sz).sum
 
 /-- How `print` renders a block of units: the first through `readRune` (raw-byte fallback), the
-    following ones through the look-ahead (`ReadRune`, no fallback). -/
-def render : List U → List Rune
-  | [] => []
-  | u :: us => u.raw :: us.map U.look
+    following ones through the look-ahead, which only takes well-formed scalars (it stops in front
+    of an invalid byte): every unit as its own rune. -/
+def render (us : List U) : List Rune := us.map U.raw
 
 /-- Number of leading valid units. -/
 def validRun : List U → Nat
@@ -92,16 +92,17 @@ def runRunes (T : Table) : PState → List Rune → List Seq
     let o := step T s (.rune r)
     if o.stop then o.out ++ [.eof] else o.out ++ runRunes T o.st rs
 
-/-- A unit that `print`'s look-ahead can take without changing what is delivered (modulo merging):
-    a well-formed scalar that would be printed from ground anyway. -/
-def absorbable (u : U) : Bool := !u.inv && decide (0x20 ≤ u.raw)
+/-- A unit that is not a C0 control: a rune ≥ 0x20 — or an invalid byte (always ≥ 0x80; the
+    look-ahead of `print` stops in front of it by itself). -/
+def absorbable (u : U) : Bool := u.inv || decide (0x20 ≤ u.raw)
 
 def absRun : List U → Nat
   | [] => 0
   | u :: us => if absorbable u then absRun us + 1 else 0
 
 /-- The cluster oracle respects the stream from byte offset `pos` on: a cluster never extends over
-    a C0 control (uniseg: GB4/GB5) nor over an invalid byte (the region of finding F102d). -/
+    a C0 control (uniseg: GB4/GB5 — a property of the library, counter `oracle-joins-c0`).  Nothing
+    is assumed about invalid bytes (before F102d was repaired this also had to exclude them). -/
 def Respects (cl : Nat → Nat) : Nat → List U → Prop
   | _, [] => True
   | pos, u :: us => cl pos ≤ 1 + absRun us ∧ Respects cl (pos + u.sz) us
@@ -121,13 +122,20 @@ def natChunks (chunks : List (List UInt8)) : List (List Nat) := chunks.map (·.m
 /-- The whole stream of a list of reads. -/
 def streamOf (chunks : List (List UInt8)) : List Nat := (natChunks chunks).flatten
 
-/-- Blocks of units as delivered Prints: every block is non-empty, never longer than the oracle's
-    cluster at its byte offset, and shorter only if it ends at a read boundary (`cut` holds of the
-    byte offset where it ends). -/
+/-- The block starts with an invalid byte. -/
+def startsInvalid : List (List U) → Prop
+  | (u :: _) :: _ => u.inv = true
+  | _ => False
+
+/-- Blocks of units as delivered Prints: every block is non-empty, only its first unit can be an
+    invalid byte, it is never longer than the oracle's cluster at its byte offset, and shorter only
+    if it ends at a read boundary (`cut` holds of the byte offset where it ends) or in front of an
+    invalid byte (which then starts the next block). -/
 def BlocksOk (cl : Nat → Nat) (cut : Nat → Prop) : Nat → List (List U) → Prop
   | _, [] => True
   | pos, b :: rest =>
-    b ≠ [] ∧ b.length ≤ max 1 (cl pos) ∧ (b.length = max 1 (cl pos) ∨ cut (pos + ulen b)) ∧
+    b ≠ [] ∧ (∀ u ∈ b.tail, u.inv = false) ∧ b.length ≤ max 1 (cl pos) ∧
+    (b.length = max 1 (cl pos) ∨ cut (pos + ulen b) ∨ startsInvalid rest) ∧
     BlocksOk cl cut (pos + ulen b) rest
 
 /-- Byte offset `n` is a read boundary of `chunks` (or the end of the stream). -/
